@@ -4,4 +4,7 @@ S3 == {1, 2, 3}
 G3 == <<"A", "B", "A">>      \* slots 1 and 3: distinct generator objects with the same name and seed
 I3 == <<1, 1, 2>>            \* slots 1, 2 on instance 1; slot 3 on instance 2
 T6 == -2..3
+S4 == {1, 2, 3, 4}
+G4 == <<"A", "B", "A", "K">>   \* slot 4: a plain counter callable (not a function of time)
+I4 == <<1, 1, 2, 2>>
 ====
